@@ -6,7 +6,7 @@ def run(tier, seed):
     wd = vlib.workdir('C02')
     d = {g.name: g for g in families.g_dir()}
     if tier == 'quick':
-        sel = [(d[n], [3]) for n in ('e123', 'etf', 'rrece', 'interl', 'nullrun', 'mutual')] + [(d['lrec'], [4])] + [(g, [3]) for g in families.g_rand(seed + 100, 2)]
+        sel = [(d[n], [3]) for n in ('e123', 'tconv', 'etf', 'rrece', 'interl', 'nullrun', 'mutual')] + [(d['lrec'], [4])] + [(g, [3]) for g in families.g_rand(seed + 100, 2)]
     else:
         sel = [(g, [l for l in (1, 2, 3, 4, 5) if (g.nt + 1) ** l <= 4000]) for g in d.values() if g.name not in families.KNOWN_DEFECT_UNITS] + [(g, [2, 3, 4]) for g in families.g_rand(seed + 100, 12)]
     # (1) inductive step: one reduce of the real driver from an ARBITRARY stack height (covers inputs of any length)
